@@ -15,6 +15,7 @@ pub mod h_domain;
 pub mod h_transcript;
 pub mod h_vk_read;
 pub mod h_zkir;
+pub mod h_roundtrip;
 
 pub mod registry;
 
@@ -22,3 +23,5 @@ pub mod registry;
 pub mod scenario_cli;
 #[cfg(not(kani))]
 pub mod scenarios;
+#[cfg(not(kani))]
+pub mod scenarios17;
